@@ -76,6 +76,15 @@ structure RenameOk (dict : List (Name × Name)) (cur : List Name) : Prop where
   valsNodup : (dict.map (·.2)).Nodup
   noClash : ∀ t ∈ dict.map (·.2), t ∈ cur → t ∈ dict.map (·.1)
 
+/-- where a key goes when frame `g` is renamed by `dict` -/
+def renKey (g : Nat) (dict : List (Name × Name)) (k : Key) : Key := if k.1 = g then (g, renOf dict k.2) else k
+
+/-- the state after `rename` took effect: both catalogues of frame `g` re-keyed by the same map, order, field objects and
+    link targets untouched -/
+def renamedState (s : State) (g : Nat) (dict : List (Name × Name)) : State :=
+  { s with links := s.links.map (fun e => (renKey g dict e.1, e.2)),
+           cols := setFrameCols s.cols g ((ownedBy s.cols g).map fun e => (renOf dict e.1, e.2)) }
+
 /-- what the client sees of a field object: closed / invalid / its current name / AttributeError for a deleted field -/
 inductive HandleView where
   | closed | invalid | named (n : Name) | unlinked | none
